@@ -709,6 +709,11 @@ func scExplore(t *testing.T, tmp string, sc scScenario, bounds []int, deadline t
 		res.Completed = b
 	}
 	res.Outcomes = len(outcomes)
+	if os.Getenv("VERIF_C08_DEBUG") != "" {
+		for k, v := range outcomes {
+			fmt.Printf("OUTCOME %d x %s\n", v, strings.ReplaceAll(k, tmp, ""))
+		}
+	}
 	res.WallS = time.Since(t0).Seconds()
 	return res
 }
